@@ -43,6 +43,12 @@ pub fn dispatch(req: &Value) -> Value {
         "relations" => op_relations(req),
         "total" => op_total(req),
         "ext" => op_ext(req),
+        "derive" => op_derive(req),
+        "derive_both" => {
+            let mut a = req.clone(); a["backend"] = json!("lossy");
+            let mut b = req.clone(); b["backend"] = json!("lossless");
+            json!({"lossy": guarded(|| op_derive(&a)), "lossless": guarded(|| op_derive(&b))})
+        }
         "rel_edit" => op_rel_edit(req),
         "rel_wrap" => op_rel_wrap(req),
         "lossy_rel" => op_lossy_rel(req),
@@ -555,4 +561,73 @@ fn op_rel_edit(req: &Value) -> Value {
         states.push(guarded(|| snap(&root)));
     }
     json!({"states": states})
+}
+
+trait ParaBackend: deb822_lossless::convert::Deb822LikeParagraph + Sized {
+    fn build(pairs: &Value) -> Self;
+    fn parse(_text: &str) -> Option<Self> { None }
+    fn pairs(&self) -> Value;
+    fn text(&self) -> String;
+}
+impl ParaBackend for deb822_lossless::lossy::Paragraph {
+    fn build(pairs: &Value) -> Self { lossy_para(pairs) }
+    fn pairs(&self) -> Value { Value::Array(self.iter().map(|(k, v)| json!([k, v])).collect()) }
+    fn text(&self) -> String { self.to_string() }
+}
+impl ParaBackend for deb822_lossless::Paragraph {
+    fn build(pairs: &Value) -> Self {
+        let v: Vec<(String, String)> = pairs.as_array().map(|a| a.iter().map(|kv| (js(&kv[0]), js(&kv[1]))).collect()).unwrap_or_default();
+        deb822_lossless::Paragraph::from(v)
+    }
+    fn pairs(&self) -> Value { Value::Array(self.items().map(|(k, v)| json!([k, v])).collect()) }
+    fn text(&self) -> String { self.to_string() }
+    fn parse(text: &str) -> Option<Self> { deb822_lossless::Paragraph::from_str(text).ok() }
+}
+
+fn derive_flow<T, P>(req: &Value) -> Value
+where T: deb822_lossless::FromDeb822Paragraph<P> + deb822_lossless::ToDeb822Paragraph<P>, P: ParaBackend {
+    let p = P::build(&req["pairs"]);
+    let x = match T::from_paragraph(&p) { Ok(x) => x, Err(e) => return json!({"ok": false, "err": e}) };
+    // several deriving structs implement neither PartialEq nor Debug: values are compared through their paragraph form
+    let p2: P = x.to_paragraph();
+    let dbg = p2.pairs();
+    let back = guarded(|| match T::from_paragraph(&p2) { Ok(y) => { let q: P = y.to_paragraph(); json!({"ok": true, "eq": q.pairs() == dbg}) }, Err(e) => json!({"ok": false, "err": e}) });
+    let mut p3 = P::build(&req["prior"]);
+    let upd = guarded(|| {
+        x.update_paragraph(&mut p3);
+        let re = match T::from_paragraph(&p3) { Ok(y) => { let q: P = y.to_paragraph(); json!({"ok": true, "eq": q.pairs() == dbg}) }, Err(e) => json!({"ok": false, "err": e}) };
+        json!({"pairs": p3.pairs(), "text": p3.text(), "reread": re})
+    });
+    // update of a paragraph parsed from text (comments / spacing of untouched lines must survive) - lossless back-end only
+    let upd_text = match req["prior_text"].as_str().and_then(P::parse) {
+        Some(mut p4) => guarded(|| { x.update_paragraph(&mut p4); json!({"text": p4.text(), "pairs": p4.pairs()}) }),
+        None => Value::Null,
+    };
+    json!({"ok": true, "to_pairs": dbg, "back": back, "update": upd, "update_text": upd_text})
+}
+
+macro_rules! derive_both {
+    ($req:expr, $ty:ty) => {
+        if $req["backend"].as_str() == Some("lossless") { derive_flow::<$ty, deb822_lossless::Paragraph>($req) } else { derive_flow::<$ty, deb822_lossless::lossy::Paragraph>($req) }
+    };
+}
+
+/// C16: from_paragraph / to_paragraph / update_paragraph of every deriving struct, on both paragraph back-ends
+fn op_derive(req: &Value) -> Value {
+    use debian_control::lossy as dl;
+    match req["struct"].as_str().unwrap_or("") {
+        "control::lossy::control::Source" => derive_both!(req, dl::Source),
+        "control::lossy::control::Binary" => derive_both!(req, dl::Binary),
+        "control::lossy::apt::Release" => derive_both!(req, dl::apt::Release),
+        "control::lossy::apt::Source" => derive_both!(req, dl::apt::Source),
+        "control::lossy::apt::Package" => derive_both!(req, dl::apt::Package),
+        "control::lossy::buildinfo::Buildinfo" => derive_both!(req, dl::buildinfo::Buildinfo),
+        "control::lossy::ftpmaster::Removal" => derive_both!(req, dl::ftpmaster::Removal),
+        "copyright::lossy::Header" => derive_both!(req, debian_copyright::lossy::Header),
+        "copyright::lossy::FilesParagraph" => derive_both!(req, debian_copyright::lossy::FilesParagraph),
+        "copyright::lossy::LicenseParagraph" => derive_both!(req, debian_copyright::lossy::LicenseParagraph),
+        "dep3::lossy::PatchHeader" => derive_both!(req, dep3::lossy::PatchHeader),
+        "aptsources::::Repository" => derive_both!(req, apt_sources::Repository),
+        other => json!({"error": format!("unknown struct {}", other)}),
+    }
 }
